@@ -93,7 +93,7 @@ PROACTIVE = {
     'C16': [['c16-builders'], ['c16-subst'], ['c08-flatten']],
     'C10': [['c10-sanity'], ['c10-resolve'], ['c10-mixed'], ['c10-paths']],
     'C11': [['c11-contains'], ['c11-validate']],
-    'C12': [['c12-primex', '2000']],
+    'C12': [['c12-primex', '2000'], ['c12-structure', '2000']],
 }
 
 
@@ -104,7 +104,7 @@ def proactive(pid, P, repo, verif, seed, known_input_ids):
     runs, dis = [], []
     for a in PROACTIVE.get(pid, []):
         a = [x.replace('{seed}', str(seed)) for x in a]
-        if pid == 'C12':
+        if a[0] == 'c12-primex':
             # one run per primitive so that the three known findings do not mask the others
             for i in range(15):
                 try:
